@@ -185,6 +185,7 @@ func NPMUniverse(o NPMOpts) *rapid.Generator[Universe] {
 				}
 				p.Versions = append(p.Versions, uv)
 			}
+			inheritReqs(t, &p)
 			u.Pkgs = append(u.Pkgs, p)
 		}
 		return u
@@ -219,6 +220,7 @@ func MavenUniverse(o MavenUOpts) *rapid.Generator[Universe] {
 		n := npkgs(t)
 		u := Universe{System: "maven"}
 		density := rapid.IntRange(1, 4).Draw(t, "density")
+		exHeavy := rapid.IntRange(0, 2).Draw(t, "exheavy") == 0
 		// first pass: versions, so that most requirements name existing ones
 		vlists := make([][]string, n)
 		for i := 0; i < n; i++ {
@@ -252,7 +254,11 @@ func MavenUniverse(o MavenUOpts) *rapid.Generator[Universe] {
 						r.Req = existing
 					}
 					var parts []string
-					switch tk := rapid.IntRange(0, 23).Draw(t, "type"); {
+					tk := rapid.IntRange(0, 23).Draw(t, "type")
+					if exHeavy && tk >= 8 && tk < 18 {
+						tk = 22 // a third of the universes carry exclusions on half of their declarations
+					}
+					switch {
 					case tk < 12:
 					case tk < 14:
 						parts = append(parts, "Test")
@@ -296,6 +302,7 @@ func MavenUniverse(o MavenUOpts) *rapid.Generator[Universe] {
 				}
 				p.Versions = append(p.Versions, uv)
 			}
+			inheritReqs(t, &p)
 			u.Pkgs = append(u.Pkgs, p)
 		}
 		return u
@@ -328,6 +335,36 @@ var PyMarkers = []PyMarker{
 	{`python_full_version < "3.9.0"`, "false"},
 }
 
+// inheritReqs makes successive versions of a package resemble each other, as
+// releases of a real package do: about half of the versions after the first
+// start from the previous version's requirement list (textually identical
+// requirements across versions), sometimes with one requirement dropped or its
+// range replaced by another requirement's.
+func inheritReqs(t *rapid.T, p *UPkg) {
+	for j := 1; j < len(p.Versions); j++ {
+		if rapid.IntRange(0, 1).Draw(t, "inherit") == 0 {
+			continue
+		}
+		prev := p.Versions[j-1].Reqs
+		if len(prev) == 0 {
+			continue
+		}
+		own := p.Versions[j].Reqs
+		reqs := append([]UReq(nil), prev...)
+		switch rapid.IntRange(0, 5).Draw(t, "inheritmut") {
+		case 0:
+			k := rapid.IntRange(0, len(reqs)-1).Draw(t, "dropreq")
+			reqs = append(reqs[:k], reqs[k+1:]...)
+		case 1:
+			if len(own) > 0 {
+				k := rapid.IntRange(0, len(reqs)-1).Draw(t, "changereq")
+				reqs[k].Req = own[0].Req
+			}
+		}
+		p.Versions[j].Reqs = reqs
+	}
+}
+
 func PyPIUniverse() *rapid.Generator[Universe] {
 	return rapid.Custom(func(t *rapid.T) Universe {
 		names := []string{"a", "b", "c", "d", "e", "f", "g", "h", "i", "j", "k", "l"}
@@ -358,6 +395,7 @@ func PyPIUniverse() *rapid.Generator[Universe] {
 				}
 				p.Versions = append(p.Versions, uv)
 			}
+			inheritReqs(t, &p)
 			u.Pkgs = append(u.Pkgs, p)
 		}
 		return u
